@@ -93,6 +93,9 @@ func (g *TyGen) Body(m ast.Mode, depth int, nameOK bool) *ast.Ty {
 		t = ast.Lolli(m, g.Body(m, depth-1, true), g.Body(m, depth-1, true))
 	case 4, 5, 6, 7:
 		n := g.Int(1, 3, "nbr")
+		if g.Chance(5, "widechoice") {
+			n = g.Int(9, 12, "widenbr") // wide choices: whatever an implementation does differently beyond a handful of branches
+		}
 		ls := g.labels(n)
 		var brs []ast.Br
 		for _, l := range ls {
@@ -333,6 +336,13 @@ func (g *TyGen) Inject(decls []*ast.Decl, class string) ([]*ast.Decl, string) {
 			return out, "no choice to duplicate a label in"
 		}
 		t := n.Node
+		if len(t.Brs) >= 2 && g.Bool("byrenaming") {
+			// the number of branches stays the same: one label is respelled like another
+			i := g.Pick(len(t.Brs), "renamed")
+			j := (i + 1 + g.Pick(len(t.Brs)-1, "onto")) % len(t.Brs)
+			t.Brs[i].L = t.Brs[j].L
+			return out, fmt.Sprintf("label %s duplicated at depth %d (by respelling another label)", t.Brs[j].L, n.Depth)
+		}
 		src := t.Brs[g.Pick(len(t.Brs), "src")]
 		nb := ast.Br{L: src.L, T: src.T.Clone()}
 		if g.Bool("othertype") {
